@@ -267,6 +267,33 @@ out:
 	return ks
 }
 
+// WaitArrivalsIdle is WaitArrivals that also gives up when, after the first arrival, no further call has arrived
+// for the idle duration (the remaining calls will presumably never come), or when stop is closed
+func (g *Gate) WaitArrivalsIdle(n int, timeout, idle time.Duration, stop <-chan struct{}) []string {
+	deadline := time.After(timeout)
+	for {
+		g.mu.Lock()
+		cur := len(g.waiting)
+		g.mu.Unlock()
+		if cur >= n {
+			break
+		}
+		var idleC <-chan time.Time
+		if cur > 0 {
+			idleC = time.After(idle)
+		}
+		select {
+		case <-g.arrived:
+			continue
+		case <-idleC:
+		case <-deadline:
+		case <-stop: // the gated party is gone: nothing more will arrive
+		}
+		break
+	}
+	return g.WaitArrivals(0, 0)
+}
+
 // Release lets the waiting call on key proceed
 func (g *Gate) Release(key string) bool {
 	g.mu.Lock()
